@@ -124,6 +124,24 @@ def programDiags (cfg : Cfg) (fs : FS) (builtins : Registry) (root : APath) : Li
 def programKeys (builtins : Registry) (visits : List Visit) : List String :=
   (builtins ++ visits.flatMap visitDefs).map (·.key)
 
+/-- the registrations of a visit, in order: qualified name, file, position of the declaration -/
+def visitSites : Visit → List (String × String × Pos)
+  | .file f _ _ _ contents => (declsOfContents [] contents).map (fun x => (declKey x.1 x.2, showPath f, declPos x.2))
+  | .extern p defs => defs.map (fun d => (d.key, showPath p, d.pos))
+  | _ => []
+
+/-- the first registration, in order, whose name is already taken (by `taken` or by an earlier registration of the
+    list): where it is (file, position) -/
+def firstCollision : List String → List (String × String × Pos) → Option (String × Pos)
+  | _, [] => none
+  | taken, x :: rest => if x.1 ∈ taken then some x.2 else firstCollision (taken ++ [x.1]) rest
+
+/-- **C04, duplicates**: the place of the first registration of a run — visit by visit, an IDL file's declarations in
+    textual order when the file is finished, an external type file's definitions at the `@extern` line — whose
+    qualified name is already taken by a built-in or an earlier registration: the second declaration of that name -/
+def programCollision (builtins : Registry) (visits : List Visit) : Option (String × Pos) :=
+  firstCollision (builtins.map (·.key)) (visits.flatMap visitSites)
+
 def Visit.file? : Visit → Option APath
   | .file f _ _ _ _ => some f
   | _ => none
